@@ -20,7 +20,7 @@ case "$pk" in
 esac
 tmp=$(mktemp -d); trap 'rm -rf "$tmp"; git -C /repo checkout -- . ; git -C /repo clean -fdq' EXIT
 echo "{\"Replace\": {\"/repo/$dir/zz_seed_demo_test.go\": \"$d/demo_test.go\"}}" > $tmp/ov.json
-rundemo(){ (cd /repo && go test -tags sqlite -overlay $tmp/ov.json -vet=off -count=1 -timeout 600s -run 'TestC[0-9]+|TestDemo' ./$dir/ 2>&1 | grep -v '^time=' | tail -4 | grep -q '^ok' && echo pass || echo FAIL); }
+rundemo(){ (cd /repo && go test -tags sqlite -overlay $tmp/ov.json -vet=off -count=1 -timeout 600s -run 'TestC[0-9]+|TestDemo|TestSeeded' ./$dir/ 2>&1 | grep -v '^time=' | tail -4 | grep -q '^ok' && echo pass || echo FAIL); }
 before=$(rundemo)
 git -C /repo apply $d/patch.diff || { echo "confirm: patch does not apply"; exit 2; }
 build=ok; (cd /repo && go build ./... 2>&1 | head -3) | grep -q . && build=BROKEN
